@@ -263,14 +263,15 @@ theorem norm_shape (a : Atom) (cop : COp) (rel : List Nat) (w : Bool) (hrel : re
   | true =>
     -- wildcard operand: returned unchanged
     left
-    refine ⟨?_, Or.inl rfl⟩
     have hs0 : (splitDots (".".intercalate (rel.map toString) ++ ".*")).map trimS = rel.map toString ++ ["*"] :=
       splitDots_wild _ rel hrel (by rw [String.toList_append, toList_join_plain]; rfl)
     simp only [if_true, hs0] at hns
     have : (rel.map toString ++ ["*"]).contains "*" = true := by simp
     simp only [this, if_true] at hns
     split at hns
-    · simp only [Option.some.injEq] at hns; exact hns.symm
+    · rename_i hlen
+      simp only [Option.some.injEq] at hns
+      exact ⟨hns.symm, Or.inl rfl, by simpa using hlen⟩
     · simp at hns
   | false =>
     have hs0 : (splitDots (".".intercalate (rel.map toString) ++ "")).map trimS = rel.map toString :=
@@ -280,12 +281,13 @@ theorem norm_shape (a : Atom) (cop : COp) (rel : List Nat) (w : Bool) (hrel : re
     · -- `~=`: no dropping, no padding, the same text again
       subst hcomp
       left
-      refine ⟨?_, Or.inr (Or.inl rfl)⟩
       simp only [MOp.ofCOp, bne_self_eq_false, Bool.false_eq_true, if_false, Bool.and_false, all_digits_map,
         Bool.not_true, Bool.or_false] at hns
       split at hns
       · simp at hns
-      · simp only [pvTarget, Option.bind_some] at hns
+      · rename_i hlen
+        refine ⟨?_, Or.inr rfl, by simpa using hlen⟩
+        simp only [pvTarget, Option.bind_some] at hns
         unfold Atom.WF getSpecifier at hwf
         simp only [MOp.ofCOp] at hwf
         have hvl : versionLikeNames.contains "python_version" = true := by decide
